@@ -44,8 +44,8 @@ MODE_FETCH = 0
 MODE_DIRECT_V2 = 1      # DefaultRecordBatch(buf) directly
 MODE_DIRECT_V0 = 2      # LegacyRecordBatch(buf, 0)
 MODE_DIRECT_V1 = 3      # LegacyRecordBatch(buf, 1)
-# the same with the bytes held in an array.array('B'): unlike bytes/bytearray it has no
-# hidden trailing NUL inside its allocation, so a one-byte over-read is visible
+# the same with the bytes held in a ctypes array of exactly that size: unlike bytes/bytearray (hidden trailing
+# NUL) or array.array (over-allocation) nothing readable follows the data, so a one-byte over-read is visible
 MODE_XDIRECT = 4
 MODES = {"fetch": MODE_FETCH, "direct2": MODE_DIRECT_V2, "direct0": MODE_DIRECT_V0,
          "direct1": MODE_DIRECT_V1, "xdirect2": MODE_XDIRECT + MODE_DIRECT_V2,
@@ -258,14 +258,23 @@ def _drive_fetch(impl, data, with_crc):
         mr = impl.MR(own)
         mr.size_in_bytes()
         maxb = len(data) // 12 + 2
-        while mr.has_next():
+        while True:
+            # two documented ways to walk the buffer: has_next()/next_batch(), or next_batch() until it returns None
+            nxt = None
+            if with_crc:
+                nxt = mr.next_batch()
+                if nxt is None:
+                    break
+            elif not mr.has_next():
+                break
             if r["nb"] >= maxb:
                 r["noadv_batches"] = r["nb"]
                 break
             b = {}
             batches.append(b)
             r["nb"] += 1
-            batch = mr.next_batch()
+            batch = nxt if with_crc else mr.next_batch()
+            nxt = None
             b["cls"] = "D" if isinstance(batch, impl.Default) else (
                 "L" if isinstance(batch, impl.Legacy) else type(batch).__name__)
             _drive_batch(impl, batch, b, data, with_crc, sink)
@@ -297,9 +306,11 @@ def _drive_direct(impl, data, mode, with_crc):
     try:
         # the batch is built on a buffer object that only this function and the batch refer to
         if mode > MODE_XDIRECT:
-            import array
+            # a buffer whose allocation ends exactly at its last byte (bytes/bytearray keep a spare NUL behind the
+            # data, array.array over-allocates): reading even one byte past the end lands in the sanitizer's redzone
+            import ctypes
             mode -= MODE_XDIRECT
-            own = array.array("B", data)
+            own = (ctypes.c_ubyte * len(data)).from_buffer_copy(data) if len(data) > 32 else bytearray(data)
         else:
             own = bytearray(data)
         if mode == MODE_DIRECT_V2:
